@@ -78,7 +78,9 @@ def from_generator(draw):
 def wide_tall():
     """Shapes around typical tuning knobs (8, 12, 16, 32, 64 per row / column), from the random generator."""
     shapes = [(1, 9), (9, 1), (1, 13), (13, 1), (2, 17), (17, 2), (1, 33), (33, 1), (1, 65), (65, 1), (9, 9), (3, 12),
-              (12, 3), (11, 7)]
+              (12, 3), (11, 7),
+              # more than 86 / 128 / 256 tiles: group offsets leave the small-integer range of the interpreter
+              (9, 10), (10, 10), (12, 8), (1, 100), (100, 1), (2, 130), (16, 16), (3, 90), (20, 20)]
     for k, (length, width) in enumerate(shapes):
         for fd in (False, True):
             yield dict(gen=[100 + k, length, width, 0.3, 6, fd], tb=0.1, rb=0.2, lb=0.3)
